@@ -1,6 +1,7 @@
 import PV.Common.Proto
 import PV.C18.Model
 import PV.C18.Spec
+import PV.C18.Thm
 /-! Driver for C18: answers the same request lines as `harness/src/bin/pvh_c18.rs`.
 
     request : `fmt <hex spec> <kind i|f|s|b> <value> [<kind> <value>]...`
@@ -81,7 +82,19 @@ def handlePyFmt (spec : List Nat) (vals : List Value) : String :=
     | none => "err"
     | some t => "ok:" ++ hex (utf8Encode t))
 
+/-- `dom`: the decidable domain `InDomain` of the theorems in `PV/C18/Thm.lean`, per value -/
+def handleDom (spec : List Nat) (vals : List Value) : String :=
+  joinSep " " (vals.map fun v => if InDomain spec v then "1" else "0")
+
 def handle : List String → String
+  | "dom" :: spec :: rest =>
+    if rest.isEmpty then "bad-request" else
+    match unhex spec, parseVals rest with
+    | some bs, some vals =>
+      match utf8Decode bs with
+      | some cs => handleDom cs vals
+      | none => "bad-request"
+    | _, _ => "bad-request"
   | "pyfmt" :: spec :: rest =>
     if rest.isEmpty then "bad-request" else
     match unhex spec, parseVals rest with
